@@ -64,6 +64,8 @@ type BatchEntry struct {
 	Table string   `json:"table"`
 	Put   val.Item `json:"put,omitempty"`
 	Del   val.Item `json:"del,omitempty"`
+	// Absent: neither put nor delete AND, through the SDK v1 adapter, not even a request structure (nil pointer)
+	Absent bool `json:"absent,omitempty"`
 }
 
 // IndexChange is one GlobalSecondaryIndexUpdate of UpdateTable.
@@ -297,6 +299,10 @@ func (op Op) String() string {
 	}
 	return string(b)
 }
+
+// NilName as the target of an ExpressionAttributeNames entry: a nil pointer through the SDK v1 adapter, the empty
+// string through the SDK v2 adapter (whose map holds strings)
+const NilName = "\x00nil"
 
 // strpSet is the pointer to an optional expression text: nil for an empty one unless set asks for the text itself
 func strpSet(s string, set bool) *string {
